@@ -476,7 +476,7 @@ pub const NAMES: &[&str] = &[
     "probe_flags_recorded", "probe_capture_disabled_variant_name", "probe_capture_case_flip_of_sensitive",
     "probe_capture_empty", "probe_capture_multibyte", "probe_capture_whitespace_edges", "probe_capture_long_input",
     "probe_capture_claimed_input_no_oracle", "probe_capture_unclaimed", "probe_real_inner_numeric", "probe_transparent_named_form",
-    "probe_default_named_form", "probe_to_string_call",
+    "probe_default_named_form", "probe_to_string_call", "probe_inner_type_is_a_type_parameter", "probe_inner_borrows_for_a_lifetime_parameter",
 ];
 const R_DISPLAY: usize = 0;
 const R_CONV: usize = 1;
@@ -502,6 +502,8 @@ const P_NUMERIC: usize = 20;
 const P_T_NAMED: usize = 21;
 const P_D_NAMED: usize = 22;
 const P_TOSTRING: usize = 23;
+const P_GENERIC: usize = 24;
+const P_BORROWED: usize = 25;
 
 pub struct Failure {
     pub oracle: &'static str,
@@ -542,6 +544,12 @@ pub fn exec(case: &Case, leg: &Leg, mut stats: Option<&mut Stats>, keep_log: boo
             info.trace.u(inner.2 as u64);
             if let Some(st) = stats.as_deref_mut() {
                 st.hit(R_DISPLAY);
+                if case.desc.contains("<T:") {
+                    st.hit(P_GENERIC);
+                }
+                if case.desc.contains("<'a>") {
+                    st.hit(P_BORROWED);
+                }
                 if matches!(iv, InnerVal::U64(_) | InnerVal::I32(_) | InnerVal::F64(_)) {
                     st.hit(P_NUMERIC);
                 }
